@@ -2,30 +2,67 @@
 no model): used by C08, C09, C11, C12, C13."""
 from __future__ import annotations
 
+_EXP = {'type': 'function', 'name': 'Exponential', 'arguments': [0.1]}
+_NUM = {'type': 'number', 'value': 2.0}
 TTC_KINDS = {
     'none': None,
+    'empty': {},
     'enabled': {'type': 'function', 'name': 'Enabled', 'arguments': []},
     'disabled': {'type': 'function', 'name': 'Disabled', 'arguments': []},
-    'dist': {'type': 'function', 'name': 'Exponential', 'arguments': [0.1]},
-    'composite': {'type': 'addition',
-                  'lhs': {'type': 'function', 'name': 'Exponential', 'arguments': [0.1]},
-                  'rhs': {'type': 'number', 'value': 2.0}},
+    'dist': _EXP,
+    'bernoulli': {'type': 'function', 'name': 'Bernoulli', 'arguments': [0.5]},
+    # composite TTC expressions and plain numbers have no 'name' key
+    'composite': {'type': 'addition', 'lhs': _EXP, 'rhs': _NUM},
+    'subtraction': {'type': 'subtraction', 'lhs': _EXP, 'rhs': _NUM},
+    'multiplication': {'type': 'multiplication', 'lhs': {'type': 'function', 'name': 'Bernoulli', 'arguments': [0.5]}, 'rhs': _EXP},
+    'division': {'type': 'division', 'lhs': _EXP, 'rhs': _NUM},
+    'exponentiation': {'type': 'exponentiation', 'lhs': _NUM, 'rhs': _NUM},
+    # a sum whose operands are the pseudo-distributions is still a composite
+    'composite_enabled': {'type': 'addition', 'lhs': {'type': 'function', 'name': 'Enabled', 'arguments': []},
+                          'rhs': {'type': 'function', 'name': 'Disabled', 'arguments': []}},
+    'number': _NUM,
 }
+# kinds that are / are not a probability distribution, for generators that want one of each
+DIST_KINDS = ('dist', 'bernoulli', 'composite', 'subtraction', 'multiplication', 'division', 'exponentiation',
+              'composite_enabled', 'number')
+PLAIN_KINDS = ('none', 'empty', 'enabled', 'disabled')
 
 def gate_of(ttc_kind: str) -> bool:
-    """what `propagate_necessity_from_node` tests: ttc has a 'name' other than Enabled/Disabled"""
+    """the property's "a parent whose TTC is a probability distribution": a non-empty TTC that is not one of the
+    pseudo-distributions Enabled / Disabled (written independently of `_has_ttc_distribution`)"""
     t = TTC_KINDS[ttc_kind]
-    return bool(t) and 'name' in t and t['name'] not in ('Enabled', 'Disabled')
+    if t is None or len(t) == 0:
+        return False
+    return not (t.get('type') == 'function' and t.get('name') in ('Enabled', 'Disabled'))
+
+def ttc_fields(ttc_kind: str) -> dict:
+    """what the Lean model is given of a TTC (Model/AGraph.lean: ANode.ttcSet / ttcName): its truthiness and the
+    value under 'name' if there is one"""
+    t = TTC_KINDS[ttc_kind]
+    out = {'ttcSet': bool(t)}
+    if t and 'name' in t:
+        out['ttcName'] = t['name'] if isinstance(t['name'], str) else '<non-string>'
+    return out
+
+def opposite_kind(ttc_kind: str, k: int = 0) -> str:
+    """a TTC of the other sort (distribution <-> none / pseudo-distribution), to construct a node with before the
+    intended TTC is assigned"""
+    return PLAIN_KINDS[k % len(PLAIN_KINDS)] if gate_of(ttc_kind) else DIST_KINDS[k % len(DIST_KINDS)]
 
 def build_graph(nodes: list[dict]):
     """nodes: storage order; each {type, ttc, def (float|None), exist (bool|None),
-    children [idx], parents [idx], viable?, necessary?, tags?}"""
+    children [idx], parents [idx], viable?, necessary?, tags?, ttc0?}.
+    `ttc0`: the node object is constructed with that TTC kind and the intended `ttc` is assigned to the public
+    field afterwards (an implementation must read the field when it analyses, not a copy made at construction)."""
     import copy
     from maltoolbox.attackgraph import AttackGraph, AttackGraphNode
     g = AttackGraph()
     objs = []
     for i, n in enumerate(nodes):
-        o = AttackGraphNode(type=n['type'], name=n.get('name', f's{i}'), ttc=copy.deepcopy(TTC_KINDS[n.get('ttc', 'none')]))
+        o = AttackGraphNode(type=n['type'], name=n.get('name', f's{i}'),
+                            ttc=copy.deepcopy(TTC_KINDS[n.get('ttc0', n.get('ttc', 'none'))]))
+        if 'ttc0' in n:
+            o.ttc = copy.deepcopy(TTC_KINDS[n.get('ttc', 'none')])
         o.defense_status = n.get('def')
         o.existence_status = n.get('exist')
         if 'viable' in n: o.is_viable = n['viable']
